@@ -223,6 +223,14 @@ impl Module {
         Ok(AuthResponse { reply, control })
     }
 
+    #[cfg(feature = "verif-hooks")]
+    pub(crate) fn verif_decide(&self, user_groups: &[Group]) -> (bool, u32) {
+        (
+            self.user_in_required_groups(user_groups),
+            self.resolve_group_configs(user_groups).vlan,
+        )
+    }
+
     fn user_in_required_groups(&self, user_groups: &[Group]) -> bool {
         user_groups.iter().any(|group| {
             self.required_groups.contains(&group.uuid) || self.required_groups.contains(&group.spn)
